@@ -21,7 +21,7 @@ CInit == <<>>
 CStrategy == Cfg.strategy
 
 VARIABLE l
-tvars == <<store, replq, req, rsp, pend, next, clock, sent, ghost, sched, l>>
+tvars == <<store, replq, req, rsp, pend, next, clock, sent, ghost, sched, disk, snapq, l>>
 E == Rec[l]
 
 Elems(sq) == {sq[i] : i \in DOMAIN sq}
@@ -43,9 +43,10 @@ StoreMatches(st, J) ==      \* J: key -> <<value, version, state>> of database d
 
 LinkKey(p) == p[1] \o ">" \o p[2]
 (* the state components are parameters: the action compares the *next* state with the recorded one *)
-Matches(sto, rpq, rq, rs, pd, J) ==
+Matches(sto, rpq, rq, rs, pd, sq, J) ==
   /\ \A n \in Nodes :
        /\ StoreMatches(sto[n], J.nodes[n].data)
+       /\ J.nodes[n].snapq = (n \in sq)
        /\ J.nodes[n].replq = [i \in DOMAIN rpq[n] |-> "rp " \o Inner(rpq[n][i])]
        /\ J.nodes[n].pending = (IF n = P THEN Cardinality({p[1] : p \in pd}) ELSE 0)
   /\ \A p \in Links :
@@ -61,6 +62,7 @@ TraceInit ==
   /\ store = [n \in Nodes |-> [k \in Keys |-> Absent]] /\ replq = [n \in Nodes |-> <<>>]
   /\ req = [p \in Links |-> <<>>] /\ rsp = [p \in Links |-> <<>>] /\ pend = {} /\ next = 1 /\ clock = 1
   /\ sent = [forward |-> 0, copy |-> 0, ack |-> 0] /\ ghost = {} /\ sched = <<>>
+  /\ disk = [n \in Nodes |-> {}] /\ snapq = {}
   /\ l = 1 /\ TLCSet(1, 0)
 
 (* the quiescent state after the set-up commands is where the model starts *)
@@ -73,6 +75,8 @@ Start ==
   /\ replq' = [n \in Nodes |-> <<>>] /\ req' = [p \in Links |-> <<>>] /\ rsp' = [p \in Links |-> <<>>]
   /\ pend' = {} /\ next' = 1 /\ clock' = 1 /\ sent' = [forward |-> 0, copy |-> 0, ack |-> 0]
   /\ ghost' = {} /\ sched' = <<>>
+  \* nothing of the database has been written by a snapshot yet; a snapshot may be queued (create-db queues one)
+  /\ disk' = [n \in Nodes |-> {}] /\ snapq' = {n \in Nodes : E.st.nodes[n].snapq}
   \* (nothing may be in flight at that point)
   /\ \A n \in Nodes : E.st.nodes[n].replq = <<>> /\ E.st.nodes[n].pending = 0
   /\ \A key \in DOMAIN E.st.links : E.st.links[key].q = <<>> /\ E.st.links[key].rsp = <<>>
@@ -84,7 +88,7 @@ StepEv ==
        [] E.kind = "deliver" -> Deliver(E.a, E.b)
        [] E.kind = "reply" -> Reply(E.a, E.b)
        [] OTHER -> FALSE
-  /\ (Matches(store', replq', req', rsp', pend', E.st)) = TRUE
+  /\ (Matches(store', replq', req', rsp', pend', snapq', E.st)) = TRUE
 
 (* diagnosis of a rejected step (IOEnv.DEBUG set): the state the model reaches *)
 Diag ==
@@ -94,14 +98,14 @@ Diag ==
        [] E.kind = "deliver" -> Deliver(E.a, E.b)
        [] E.kind = "reply" -> Reply(E.a, E.b)
        [] OTHER -> FALSE
-  /\ (Matches(store', replq', req', rsp', pend', E.st)) = FALSE
+  /\ (Matches(store', replq', req', rsp', pend', snapq', E.st)) = FALSE
   /\ PrintT(<<"DIAG", l, E.kind, E.a, E.b, E.op>>)
   /\ PrintT(<<"DIAG-store", store'>>)
   /\ PrintT(<<"DIAG-replq", replq'>>)
   /\ PrintT(<<"DIAG-req", req', "rsp", rsp', "pend", pend'>>)
   /\ FALSE
 
-Reset == E.ev = "reset" /\ UNCHANGED <<store, replq, req, rsp, pend, next, clock, sent, ghost, sched>>
+Reset == E.ev = "reset" /\ UNCHANGED <<store, replq, req, rsp, pend, next, clock, sent, ghost, sched, disk, snapq>>
 
 TraceNext == l <= Len(Rec) /\ l' = l + 1 /\ (Reset \/ Start \/ StepEv \/ Diag)
 TraceSpec == TraceInit /\ [][TraceNext]_tvars
